@@ -34,6 +34,8 @@ fn run_case(name: &str, npingers: usize, progs: Vec<Vec<String>>, loop_ops: Vec<
             el.handle()
                 .insert_source(source, move |(), _, _| {
                     sh2.cbs.fetch_add(1, Ordering::SeqCst);
+                    // other threads may ping while the callback runs
+                    calloop::verif::yield_point("ping.cb");
                 })
                 .map_err(|e| e.error)
                 .unwrap();
@@ -57,7 +59,8 @@ fn run_case(name: &str, npingers: usize, progs: Vec<Vec<String>>, loop_ops: Vec<
                 match op.as_str() {
                     "ping" => {
                         if let Some(h) = handles.last() {
-                            h.ping()
+                            h.ping();
+                            calloop::verif::yield_point("ping.returned");
                         }
                     }
                     "clone" => {
